@@ -57,6 +57,9 @@ type universe struct {
 	// DefaultIPMode: the API server fills in status.loadBalancer.ingress[].ipMode = "VIP" where an entry has an IP and no
 	// mode (LoadBalancerIPMode, on by default since Kubernetes 1.30, locked on in 1.32 - the API version MetalLB vendors)
 	DefaultIPMode bool
+	// RetryUserEvents: user events are also offered while nothing is pending but the retry of deliveries that ended in an
+	// error (a retry in back-off waits arbitrarily long; the next change may well arrive first)
+	RetryUserEvents bool
 }
 
 type preSvc struct {
@@ -109,6 +112,20 @@ type ctlSys struct {
 	handlerCalls  []string // handler calls of the current delivery
 	allocEdges    []allocEdge
 	incarnation   int
+	errKeys       map[string]bool // pending service keys whose last delivery ended in an error
+}
+
+// onlyRetriesPending: every pending piece of work is the retry of a delivery that ended in an error.
+func (s *ctlSys) onlyRetriesPending() bool {
+	if s.poolQ.Has("pool") || len(s.svcQ.Keys()) == 0 {
+		return false
+	}
+	for _, k := range s.svcQ.Keys() {
+		if !s.errKeys[k] {
+			return false
+		}
+	}
+	return true
 }
 
 // allocEdge records a status transition empty -> non-empty made by one handler call.
@@ -259,7 +276,9 @@ func (s *ctlSys) holdings() refalloc.Holdings {
 }
 
 func (s *ctlSys) serviceChanged(l log.Logger, name string, svc *v1.Service, eps []discovery.EndpointSlice) controllers.SyncState {
-	if (!s.sr.VerifInitialLoadPerformed() || !s.fullSyncOK) && len(s.handlerCalls) > 0 && s.handlerCalls[0] == "single" {
+	// (a deletion - svc == nil - cannot allocate anything and may pass the gate: the handler releases what an
+	// interrupted first sync recorded for a Service that no longer exists)
+	if svc != nil && (!s.sr.VerifInitialLoadPerformed() || !s.fullSyncOK) && len(s.handlerCalls) > 0 && s.handlerCalls[0] == "single" {
 		s.gateViolation = "handler ran for single-service key " + name + " before the first full sync completed"
 	}
 	preIPs := s.c.ips.IPs(name)
@@ -367,6 +386,16 @@ func (s *ctlSys) Key() string {
 	if burstMode && s.burst == 1 && !s.quiescent() {
 		b.WriteString("user-event-may-follow\n")
 	}
+	if s.u.RetryUserEvents {
+		var ek []string
+		for k := range s.errKeys {
+			if s.svcQ.Has(k) {
+				ek = append(ek, k)
+			}
+		}
+		sort.Strings(ek)
+		fmt.Fprintf(&b, "retries=%v\n", ek)
+	}
 	b.WriteString(s.c.ips.VerifDump())
 	fmt.Fprintf(&b, "cpools=%s\n", controllers.VerifPoolsDump(s.c.pools))
 	fmt.Fprintf(&b, "initialLoad=%v/%v prcfg=%s\n", s.sr.VerifInitialLoadPerformed(), s.fullSyncOK, s.pr.VerifCurrentConfig())
@@ -463,7 +492,7 @@ func (s *ctlSys) Enabled() []verifrt.Event {
 		}
 		evs = append(evs, verifrt.Event{Kind: "crash", Fault: true})
 	}
-	if s.quiescent() || (burstMode && s.burst == 1) {
+	if s.quiescent() || (burstMode && s.burst == 1) || (s.u.RetryUserEvents && faultMenu && s.onlyRetriesPending()) {
 		svcs := s.services()
 		for i, sl := range s.u.Slots {
 			cur := svcs[sl.Key()]
@@ -650,10 +679,17 @@ func (s *ctlSys) Apply(ev verifrt.Event) {
 		}
 		crashed := s.guard(func() {
 			_, err := s.sr.Reconcile(context.Background(), req)
+			if s.errKeys == nil {
+				s.errKeys = map[string]bool{}
+			}
 			if err != nil {
 				s.svcQ.Add(ev.S)
-			} else if ev.S == "reload" {
-				s.fullSyncOK = true
+				s.errKeys[ev.S] = true
+			} else {
+				delete(s.errKeys, ev.S)
+				if ev.S == "reload" {
+					s.fullSyncOK = true
+				}
 			}
 		})
 		s.store.Fail = nil
